@@ -238,6 +238,10 @@ func catalogue(r *rng.R, extra int) []feature {
 	add(ptr(named("CodeP")), "f,omitempty")
 	add(slice(ptr(named("CodeP"))), "f")
 	add(mp(ptr(named("CodeP"))), "f")
+	add(named("Weekday"), "f")
+	add(slice(named("Weekday")), "f")
+	add(mp(slice(named("Weekday"))), "f")
+	add(slice(named("Octet")), "f")
 	add(sc("time"), "f")
 	add(ptr(sc("time")), "f")
 	add(ptr(sc("time")), "f,omitempty")
@@ -312,11 +316,13 @@ package m
 
 import (
 	"encoding/json"
+	"strconv"
 	"time"
 )
 
 var _ = json.RawMessage(nil)
 var _ = time.Time{}
+var _ = strconv.Itoa
 
 // Color is a named string type
 type Color string
@@ -358,6 +364,18 @@ func (c *CodeP) MarshalText() ([]byte, error) { return []byte(c.s), nil }
 
 // UnmarshalText takes any text
 func (c *CodeP) UnmarshalText(b []byte) error { c.s = string(b); return nil }
+
+// Weekday is a byte-sized number written as text: a slice of it is an array of strings for encoding/json, not base64
+type Weekday uint8
+
+// MarshalText names the day
+func (d Weekday) MarshalText() ([]byte, error) { return []byte("day-" + strconv.Itoa(int(d))), nil }
+
+// UnmarshalText takes any text
+func (d *Weekday) UnmarshalText(b []byte) error { *d = Weekday(len(b)); return nil }
+
+// Octet is a byte-sized number without methods: a slice of it is base64 text like []byte
+type Octet uint8
 
 // Plain is a struct without a model annotation
 type Plain struct {
